@@ -1,44 +1,22 @@
-"""C09 - snapshot files round-trip (field-layout agreement between the writers and readers of snapshot.py)."""
+"""C09 - snapshot files round-trip.  Decided by folding skoolkit's own writer and reader code on model states (C09round.py) and
+decoding the written bytes with reference decoders written from the format specifications (snapref.py)."""
 import ast
 from sa.core import pyfacts, report
 from sa.core.pyfacts import Lit, NotLiteral, FactError, ModuleFold
 
 EXPLANATION = (
-    "Decides that writer and reader agree on where every field lives and how it is encoded, from the source of snapshot.py: for each register "
-    "and state key the set of header/block offsets the writer stores equals the set the reader loads (Z80 v1/v3 header, SZX Z80R/SPCR/AY "
-    "blocks); every encoder/decoder pair of one-line formulas (border bits, R bit 7, interrupt mode bits, the Z80 T-state quarter coding, the "
-    "SZX T-state dword) is folded over its whole finite domain and must be inverse; T-state values of any size keep their position in the "
-    "frame through both formats and all three machines; block-length words equal the bytes emitted after them; the bank layout written for "
-    "48K equals the one the reader assumes; the slice clamp of each Memory class equals the size of its mapping; the run-length coder flushes "
-    "a pending run under the same condition inside and after the loop; every key exported by simutils.get_state is stored by each writer "
-    "(documented omissions: MEMPTR and fe in the Z80 format) without narrowing. Not decided: the RLE coder/decoder pair on arbitrary data, zlib, "
-    "bin2sna/snapmod option semantics, agreement with the external format specifications beyond the offsets written in the code.")
-
-REG_ATTR = {'a': 'a', 'f': 'f', 'bc': 'bc', 'de': 'de', 'hl': 'hl', 'sp': 'sp', 'i': 'i', 'r': 'r', 'ix': 'ix', 'iy': 'iy', 'pc': 'pc',
-            '^a': 'a2', '^f': 'f2', '^bc': 'bc2', '^de': 'de2', '^hl': 'hl2', 'memptr': 'memptr'}
-HALF = {'c': ('bc', 0), 'b': ('bc', 1), 'e': ('de', 0), 'd': ('de', 1), 'l': ('hl', 0), 'h': ('hl', 1),
-        '^c': ('^bc', 0), '^b': ('^bc', 1), '^e': ('^de', 0), '^d': ('^de', 1), '^l': ('^hl', 0), '^h': ('^hl', 1)}
-
-def reader_offsets(fn, base_names):
-    """attr -> sorted offsets read, for assignments `self.attr = <expr over base[k] / get_word(base, k) / get_dword(base, k)>`."""
-    out = {}
-    for n in ast.walk(fn):
-        if isinstance(n, ast.Assign) and len(n.targets) == 1 and isinstance(n.targets[0], ast.Attribute) and isinstance(n.targets[0].value, ast.Name) \
-           and n.targets[0].value.id == 'self':
-            offs = set()
-            for x in ast.walk(n.value):
-                if isinstance(x, ast.Subscript) and ast.unparse(x.value) in base_names:
-                    if isinstance(x.slice, ast.Constant):
-                        offs.add(x.slice.value)
-                    elif isinstance(x.slice, ast.Slice) and isinstance(x.slice.lower, ast.Constant) and isinstance(x.slice.upper, ast.Constant):
-                        offs.update(range(x.slice.lower.value, x.slice.upper.value))
-                elif isinstance(x, ast.Call) and isinstance(x.func, ast.Name) and x.func.id in ('get_word', 'get_dword') and len(x.args) == 2 \
-                        and ast.unparse(x.args[0]) in base_names and isinstance(x.args[1], ast.Constant):
-                    w = 2 if x.func.id == 'get_word' else 4
-                    offs.update(range(x.args[1].value, x.args[1].value + w))
-            if offs:
-                out.setdefault(n.targets[0].attr, (sorted(offs), n))
-    return out
+    "Decides, by compile-time evaluation (folding) of skoolkit's own code on model machine states - nothing is executed by the Python "
+    "interpreter, the checker's evaluator walks the syntax tree of snapshot.py as it stands in the tree - that (C09.9) write_snapshot produces "
+    "files which a decoder written from the Z80 v3 and ZX-State specifications reads back to exactly the registers, interrupt state, border, "
+    "T-state position, paging/AY state and RAM that were written, and that skoolkit's own reader returns the same, for 48K, 128K and +2 and RAM "
+    "images built from the input families the property names (ED runs of every length 1..600, long runs across the 255 boundary, ED next to "
+    "runs, random); (C09.10) the Z80 run-length coder and decoder are inverse on every string over {ED,00,01} up to length 6 (quick) / 9 "
+    "(thorough) in both block forms; (C09.11, C09.5) every value of the small state domains and T-state positions across the frame survive "
+    "both formats on all machines; (C09.12) poke / move / patch specs change exactly the cells the reference semantics name, on 48K lists and "
+    "128K banked memories, with and without page prefixes; (C09.7) slice reads up to the top of memory return every byte; (C09.6) every key "
+    "exported by simutils.get_state is stored by each writer without narrowing (documented omissions: MEMPTR and fe in the Z80 format). "
+    "Not decided: all RAM images and all register values (model inputs are sampled, the RLE alphabet is exhaustive only to the stated length), "
+    "SNA input, option parsing of bin2sna/snapmod beyond the three edit functions.")
 
 def branch_of(fn, var, key):
     """Body of the `if var == key` / `elif var == key` (or var.startswith(key)) branch in fn."""
@@ -54,422 +32,87 @@ def branch_of(fn, var, key):
                     return n.body
     return None
 
-def written_offsets(body, base_names):
-    offs = set()
-    for st in body:
-        for n in ast.walk(st):
-            tgs = []
-            if isinstance(n, ast.Assign):
-                tgs = n.targets
-            elif isinstance(n, ast.AugAssign):
-                tgs = [n.target]
-            for tg in tgs:
-                if isinstance(tg, ast.Subscript) and ast.unparse(tg.value) in base_names:
-                    s = tg.slice
-                    if isinstance(s, ast.Constant):
-                        offs.add(s.value)
-                    elif isinstance(s, ast.Slice) and isinstance(s.lower, ast.Constant) and isinstance(s.upper, ast.Constant):
-                        offs.update(range(s.lower.value, s.upper.value))
-                    elif isinstance(s, ast.BinOp) and isinstance(s.op, ast.Add) and isinstance(s.left, ast.Constant):
-                        offs.add(('base+', s.left.value))
-    return offs
 
-class Fold:
-    """Evaluate writer branch then reader expressions on a concrete header/block."""
-    def __init__(self, repo):
-        self.repo = repo
+def tstates_rule(ctx, repo, mod=None, sf=None):
+    """C09.5 (shared with C10): T-state position in the frame through both formats, folded through the real constructors."""
+    from sa.rules import C09round, snapref
+    ctx.rule('C09.5-tstates', 'T-state position in the frame survives both formats (frame boundaries, quarter-frame boundaries, byte carries, values beyond one frame; every position in the thorough tier), all machines', floor=6)
+    sf = sf or C09round.SnapFolder(repo)
+    for ext in ('z80', 'szx'):
+        for machine in ('48K', '128K', '+2'):
+            frame = snapref.FRAME[machine]
+            q = frame // 4
+            ts = set(range(0, 12)) | set(range(frame - 12, frame)) | {frame, frame + 1, 2 * frame - 1, 300 * frame + 777, 2 ** 24 + 5096, 2 ** 24 * 3 + 70000, 10 ** 9 + 7, 2 ** 32 + 12345}
+            for k in range(1, 4):
+                ts |= set(range(k * q - 2, k * q + 3))
+            ts |= set(range(0, frame, 1 if ctx.tier == 'thorough' else 4099))
+            ts |= {255, 256, 257, 65535, 65536, 65537}
+            C09round.domain_check(ctx, sf, ext, machine, 'tstates', sorted(ts))
+    return sf
 
-    def opq(self, objs, val):
-        def f(n):
-            if isinstance(n, ast.Attribute) and isinstance(n.value, ast.Name) and n.value.id == 'self' and n.attr in objs:
-                return objs[n.attr]
-            if isinstance(n, ast.Call) and isinstance(n.func, ast.Name) and n.func.id == 'get_int_param':
-                return val
-            if isinstance(n, ast.Call) and isinstance(n.func, ast.Name) and n.func.id in ('get_word', 'get_dword'):
-                l = Lit(self.repo, 'snapshot', self.env, f)
-                data = l.ev(n.args[0]); i = l.ev(n.args[1])
-                w = 2 if n.func.id == 'get_word' else 4
-                return sum(data[i + k] << (8 * k) for k in range(w))
-            return None
-        return f
-
-    def write(self, body, objs, val, env=None):
-        self.env = dict(env or {})
-        mf = ModuleFold(self.repo, 'snapshot', self.env, self.opq(objs, val))
-        mf.exec(body)
-        self.env = mf.env
-
-    def read(self, expr, objs, env=None):
-        self.env = dict(env or {})
-        return Lit(self.repo, 'snapshot', self.env, self.opq(objs, None)).ev(expr)
-
-def z80_rules(ctx, repo, mod):
-    ctx.rule('C09.1-z80-layout', 'Z80 format: offsets stored by _set_registers/_set_state == offsets loaded by Z80._read; encodings inverse (folded)', floor=30)
-    cls = 'Z80'
-    rd = mod.method(cls, '_read')
-    ws = mod.method(cls, '_set_state')
-    wr = mod.method(cls, '_set_registers')
-    regs = Lit(repo, 'snapshot').ev(mod.assigns['Z80_REGISTERS'][-1])
-    ro = reader_offsets(rd, ('self.header',))
-    where = 'skoolkit/snapshot.py'
-    for key, off in sorted(regs.items()):
-        if key in HALF:
-            full, d = HALF[key]
-            if regs.get(full) is None or regs[full] + d != off:
-                ctx.violation('Z80_REGISTERS[%r]' % key, where, '8-bit register %s is stored at offset %d, but %s is at %s' % (key, off, full, regs.get(full)))
-            else:
-                ctx.ok({'key': key, 'offset': off})
-            continue
-        attr = REG_ATTR.get(key)
-        if attr is None or attr not in ro:
-            ctx.violation('Z80_REGISTERS[%r]' % key, where, 'no reader attribute found for register key %s' % key)
-            continue
-        width = 1 if key in ('a', 'f', 'i', 'r', '^a', '^f') else 2
-        want = list(range(off, off + width))
-        got = ro[attr][0]
-        if key == 'r':
-            want = [11, 12]
-        if key == 'pc':
-            # v1 files keep PC at 6, v2/v3 at 32: the reader must load both, the writer chooses by the same test
-            got = sorted(set(got))
-            want = [off, off + 1]
-            rs = [n for n in ast.walk(rd) if isinstance(n, ast.Assign) and isinstance(n.targets[0], ast.Attribute) and n.targets[0].attr == 'pc']
-            offs = sorted(o for a in rs for x in ast.walk(a.value) if isinstance(x, ast.Call) and ast.unparse(x.func) == 'get_word' for o in [x.args[1].value])
-            src = ast.unparse(wr)
-            if offs != [6, off] or 'offset = 6' not in src:
-                ctx.violation('Z80 pc', where, 'PC is read from offsets %s; writer uses 6 (v1) and %d' % (offs, off))
-            else:
-                ctx.ok({'key': 'pc', 'offsets': offs})
-            continue
-        if got != want:
-            ctx.violation('Z80_REGISTERS[%r]' % key, '%s:%d' % (where, ro[attr][1].lineno), 'register %s is written at offsets %s but read from %s' % (key, want, got))
-        else:
-            ctx.ok({'key': key, 'offsets': want})
-    # state keys
-    STATE = {'iff': ['iff1', 'iff2'], 'im': ['im'], 'border': ['border'], '7ffd': ['out7ffd'], 'fffd': ['outfffd'], 'tstates': ['tstates'], 'ay[': ['ay']}
-    for key, attrs in STATE.items():
-        body = branch_of(ws, 'name', key)
-        if body is None:
-            ctx.violation('Z80 state ' + key, where, 'Z80._set_state has no branch for %r' % key)
-            continue
-        w = written_offsets(body, ('self.header',))
-        if key == 'ay[':
-            w = set(range(39, 55)) if ('base+', 39) in w else w
-        r = set()
-        for a in attrs:
-            if a == 'tstates':
-                # computed through locals (t1, t2) inside the version-3 block: collect the header offsets that block reads
-                for n in ast.walk(rd):
-                    if isinstance(n, ast.If) and any(isinstance(x, ast.Assign) and isinstance(x.targets[0], ast.Attribute) and x.targets[0].attr == 'tstates' for x in n.body):
-                        for x in n.body:
-                            if isinstance(x, ast.Assign) and any(isinstance(t, ast.Name) and t.id.startswith('t') for t in x.targets):
-                                for y in ast.walk(x.value):
-                                    if isinstance(y, ast.Subscript) and ast.unparse(y.value) == 'self.header' and isinstance(y.slice, ast.Constant):
-                                        r.add(y.slice.value)
-            elif a not in ro:
-                ctx.violation('Z80 state ' + key, where, 'Z80._read does not load %s' % a)
-            else:
-                r.update(ro[a][0])
-        if w != r:
-            ctx.violation('Z80 state ' + key, '%s:%d' % (where, body[0].lineno), 'state %s is written at offsets %s but read from %s' % (key, sorted(map(str, w)), sorted(r)))
-        else:
-            ctx.ok({'state': key, 'offsets': sorted(w)})
-    # encodings: fold writer then reader
-    f = Fold(repo)
-    def rexpr(attr):
-        return ro[attr][1].value
-    def header(n=87, machine=4):
-        h = [0] * n
-        if n > 34:
-            h[34] = machine
-            h[30] = n - 32
-        return h
-    # border / im / iff / R (with arbitrary other bits in the shared bytes)
-    for key, attr, dom, pre in (('border', 'border', range(8), (12,)), ('im', 'im', range(3), (29,)), ('iff', 'iff1', range(2), ())):
-        bad = None
-        body = branch_of(ws, 'name', key)
-        for v in dom:
-            for other in (0, 0xFF, 0xA5, 0x5A):
-                h = header()
-                for p in pre:
-                    h[p] = other
-                f.write(body, {'header': h}, v)
-                got = f.read(rexpr(attr), {'header': h})
-                if got != v:
-                    bad = (v, other, got)
-        if bad:
-            ctx.violation('Z80 codec ' + key, where, '%s=%d written over byte value 0x%02X reads back as %s' % (key, bad[0], bad[1], bad[2]))
-        else:
-            ctx.ok({'codec': key, 'domain': len(dom)})
-    # R register: _set_registers
-    rbody = None
-    for n in ast.walk(wr):
-        if isinstance(n, ast.If) and ast.unparse(n.test) == 'offset >= 0':
-            rbody = [s for s in n.body if not isinstance(s, ast.Try)]
-            trys = [s for s in n.body if isinstance(s, ast.Try)]
-    bad = None
-    if rbody is None:
-        raise FactError('skoolkit/snapshot.py: Z80._set_registers shape not recognised')
-    for v in range(256):
-        for other in (0, 0xFF):
-            h = header()
-            h[12] = other
-            f.write(trys + rbody, {'header': h}, v, {'reg': 'r', 'size': 1, 'offset': regs['r'], 'val': str(v)})
-            got = f.read(rexpr('r'), {'header': h})
-            b12 = h[12]
-            if got != v or (b12 & 0xFE) != (other & 0xFE):
-                bad = (v, other, got)
-    if bad:
-        ctx.violation('Z80 codec r', where, 'R=%d written over byte 12 = 0x%02X reads back as %s (or disturbs the other bits)' % bad)
-    else:
-        ctx.ok({'codec': 'r', 'domain': 256})
-    return ro, ws
-
-def tstates_rule(ctx, repo, mod):
-    ctx.rule('C09.5-tstates', 'T-state position in the frame survives both formats for every T (0 .. frame-1 exhaustively, plus large values), all machines', floor=5)
-    f = Fold(repo)
-    where = 'skoolkit/snapshot.py'
-    frames = Lit(repo, 'snapshot').ev(ast.parse('FRAME_DURATIONS').body[0].value)
-    big = [frames[1] * 300 + 777, 2 ** 24 + 5096, 2 ** 24 * 3 + 70000, 10 ** 9 + 7, 2 ** 32 + 12345]
-    # Z80 v3
-    z = 'Z80'
-    ro = reader_offsets(mod.method(z, '_read'), ('self.header',))
-    wbody = branch_of(mod.method(z, '_set_state'), 'name', 'tstates')
-    rd = mod.method(z, '_read')
-    # reader statements computing tstates: the `if i > 55:` block
-    rblock = None
-    for n in ast.walk(rd):
-        if isinstance(n, ast.If) and any(isinstance(s, ast.Assign) and isinstance(s.targets[0], ast.Attribute) and s.targets[0].attr == 'tstates' for s in n.body):
-            rblock = [s for s in n.body if isinstance(s, ast.Assign) and not (isinstance(s.targets[0], ast.Name) and s.targets[0].id.startswith('m'))]
-    if wbody is None or rblock is None:
-        raise FactError('skoolkit/snapshot.py: Z80 tstates writer/reader not recognised')
-    for machine, frame in ((0, frames[0]), (4, frames[1]), (12, frames[1])):
-        bad = None
-        for t in list(range(frame)) + big:
-            h = [0] * 87
-            h[34] = machine
-            f.write(wbody, {'header': h}, t)
-            tracker = {}
-            class Obj: pass
-            env = {}
-            mf = ModuleFold(repo, 'snapshot', env, f.opq({'header': h}, None))
-            # self.tstates = ... is an attribute store: capture through a Name
-            stmts = []
-            for s in rblock:
-                if isinstance(s.targets[0], ast.Attribute):
-                    s2 = ast.Assign(targets=[ast.Name(id='__tstates', ctx=ast.Store())], value=s.value, lineno=s.lineno)
-                    stmts.append(s2)
-                else:
-                    stmts.append(s)
-            mf.exec(stmts)
-            got = mf.env.get('__tstates')
-            if got is None or got % frame != t % frame:
-                bad = (t, got)
-                break
-        if bad:
-            ctx.violation('Z80 tstates machine %d' % machine, where, 'Z80 format: T=%d is read back as %s; position in the %d-T frame is lost' % (bad[0], bad[1], frame))
-        else:
-            ctx.ok({'format': 'z80', 'machine id': machine, 'values': frame + len(big)})
-    # SZX
-    s = 'SZX'
-    wfn = mod.method(s, '_add_zxstz80regs')
-    wbody = branch_of(wfn, 'name', 'tstates')
-    rro = reader_offsets(mod.method(s, '_read'), ('block',))
-    if wbody is None or 'tstates' not in rro:
-        raise FactError('skoolkit/snapshot.py: SZX tstates writer/reader not recognised')
-    for mid, frame in ((1, frames[0]), (2, frames[1]), (3, frames[1])):
-        bad = None
-        step = 1 if ctx.tier == 'thorough' else 7
-        for t in list(range(0, frame, step)) + [frame - 1] + big:
-            block = [0] * 37
-            hdr = [ord(c) for c in 'ZXST'] + [1, 4, mid, 0]
-            f.write(wbody, {'header': hdr}, t, {'z80r': block})
-            got = f.read(rro['tstates'][1].value, {}, {'block': block})
-            if got % frame != t % frame:
-                bad = (t, got)
-                break
-        if bad:
-            ctx.violation('SZX tstates machine %d' % mid, where, 'SZX format (machine id %d): T=%d is read back as %s; position in the %d-T frame is lost' % (mid, bad[0], bad[1], frame))
-        else:
-            ctx.ok({'format': 'szx', 'machine id': mid})
-
-def szx_rules(ctx, repo, mod):
-    ctx.rule('C09.2-szx-layout', 'SZX format: offsets stored by _add_zxst* == offsets loaded by SZX._read (Z80R, SPCR, AY blocks)', floor=30)
-    where = 'skoolkit/snapshot.py'
-    regs = Lit(repo, 'snapshot').ev(mod.assigns['SZX_REGISTERS'][-1])
-    rd = mod.method('SZX', '_read')
-    ro = reader_offsets(rd, ('block',))
-    for key, off in sorted(regs.items()):
-        if key in HALF:
-            full, d = HALF[key]
-            if regs.get(full) is None or regs[full] + d != off:
-                ctx.violation('SZX_REGISTERS[%r]' % key, where, '8-bit register %s is stored at offset %d, but %s is at %s' % (key, off, full, regs.get(full)))
-            else:
-                ctx.ok({'key': key, 'offset': off})
-            continue
-        attr = REG_ATTR.get(key)
-        if attr is None or attr not in ro:
-            ctx.violation('SZX_REGISTERS[%r]' % key, where, 'SZX._read loads no attribute for register key %s' % key)
-            continue
-        width = 1 if key in ('a', 'f', 'i', 'r', '^a', '^f') else 2
-        want = list(range(off, off + width))
-        if ro[attr][0] != want:
-            ctx.violation('SZX_REGISTERS[%r]' % key, '%s:%d' % (where, ro[attr][1].lineno), 'register %s is written at offsets %s but read from %s' % (key, want, ro[attr][0]))
-        else:
-            ctx.ok({'key': key, 'offsets': want})
-    STATE = [('_add_zxstz80regs', 'z80r', {'iff': ['iff1', 'iff2'], 'im': ['im'], 'tstates': ['tstates']}),
-             ('_add_zxstspecregs', 'spcr', {'border': ['border'], '7ffd': ['out7ffd'], 'fe': ['outfe']}),
-             ('_add_zxstayblock', 'ay', {'fffd': ['outfffd'], 'ay[': ['ay']})]
-    for fname, var, keys in STATE:
-        fn = mod.method('SZX', fname)
-        for key, attrs in keys.items():
-            body = branch_of(fn, 'name', key)
-            if body is None:
-                ctx.violation('SZX state ' + key, where, 'SZX.%s has no branch for %r' % (fname, key))
-                continue
-            w = written_offsets(body, (var,))
-            if key == 'ay[':
-                w = set(range(2, 18)) if ('base+', 2) in w else w
-            r = set()
-            for a in attrs:
-                if a in ro:
-                    r.update(ro[a][0])
-            if key == 'tstates':
-                ok = w and w <= r and min(w) == min(r)
-            else:
-                ok = w == r
-            if not ok:
-                ctx.violation('SZX state ' + key, '%s:%d' % (where, body[0].lineno), 'state %s is written at block offsets %s but read from %s' % (key, sorted(map(str, w)), sorted(r)))
-            else:
-                ctx.ok({'state': key, 'block': var, 'offsets': sorted(w)})
-    # block lengths
-    ctx.rule('C09.3-lengths', 'length words equal the bytes that follow (SZX blocks, RAMP pages, Z80 v3 RAM blocks)', floor=3)
-    fn = mod.method('SZX', '_get_zxstrampage')
-    size_k = None
-    after = 0
-    seen_size = False
-    payload = None
-    for st in fn.body:
-        if isinstance(st, ast.Assign) and isinstance(st.targets[0], ast.Name) and st.targets[0].id == 'size':
-            v = st.value
-            if isinstance(v, ast.BinOp) and isinstance(v.op, ast.Add) and isinstance(v.right, ast.Constant) and ast.unparse(v.left).startswith('len('):
-                size_k = v.right.value
-                payload = ast.unparse(v.left)[4:-1]
-        if isinstance(st, ast.Expr) and isinstance(st.value, ast.Call) and isinstance(st.value.func, ast.Attribute) and st.value.func.attr == 'extend':
-            a = st.value.args[0]
-            if isinstance(a, ast.Tuple) and any('size' in ast.unparse(e) for e in a.elts):
-                seen_size = True
-                if len(a.elts) != 4:
-                    ctx.violation('SZX RAMP length word', where, 'RAMP block size is emitted in %d bytes, the format uses 4' % len(a.elts))
-            elif seen_size and isinstance(a, ast.Tuple):
-                after += len(a.elts)
-    if size_k is None or not seen_size:
-        raise FactError('skoolkit/snapshot.py: SZX._get_zxstrampage shape not recognised')
-    if size_k != after:
-        ctx.violation('SZX RAMP size', '%s:%d' % (where, fn.lineno), 'RAMP size = len(%s) + %d but %d bytes are emitted between the size word and the page data' % (payload, size_k, after))
-    else:
-        ctx.ok({'block': 'RAMP', 'size': 'len(%s) + %d' % (payload, size_k)})
-    # reader side of RAMP: flags at +8, page at +10, data from +11 = 8 + 3
-    src = ast.unparse(rd)
-    if 'data[i + 10]' in src and 'data[i + 11:i + 8 + block_len]' in src and 'data[i + 8] % 2' in src and size_k == 3:
-        ctx.ok({'block': 'RAMP reader', 'page at': 'i+10', 'data at': 'i+11'})
-    else:
-        ctx.violation('SZX RAMP reader', where, 'reader offsets of the RAMP block (flags i+8, page i+10, data i+11) do not match a 3-byte page header')
-    fn = mod.method('SZX', 'data')
-    src = ast.unparse(fn)
-    if 'size = len(block_data)' in src and 'szx.extend(block_data)' in src and src.index('size % 256') < src.index('szx.extend(block_data)'):
-        ctx.ok({'block': 'generic', 'size': 'len(block_data)'})
-    else:
-        ctx.violation('SZX block size', where, 'SZX.data() no longer emits len(block_data) before block_data')
-    fn = mod.method('Z80', '_make_z80_ram_block')
-    ret = [n for n in ast.walk(fn) if isinstance(n, ast.Return) and 'page' in ast.unparse(n)][-1]
-    src = ast.unparse(ret)
-    if src.replace(' ', '') == 'returnbytes([length%256,length//256,page]+block)' and 'length = len(block)' in ast.unparse(fn):
-        ctx.ok({'block': 'Z80 v3 RAM block', 'length': 'len(block)'})
-    else:
-        ctx.violation('Z80 RAM block length', '%s:%d' % (where, ret.lineno), 'v3 RAM block header is %s, expected length word of len(block) then page' % src)
-
-def misc_rules(ctx, repo, mod):
-    where = 'skoolkit/snapshot.py'
-    ctx.rule('C09.4-banks', '48K bank layout: writer set_ram places RAM where the reader Memory maps it (Z80 v1 5,2,0; v3 5,1,2; SZX 5,2,0)', floor=3)
-    mem = mod.method('Memory', '__init__')
-    msrc = ast.unparse(mem)
-    def banks_assigned(fn, cond_true):
-        out = []
-        for n in ast.walk(fn):
-            if isinstance(n, ast.Assign) and isinstance(n.targets[0], ast.Subscript) and ast.unparse(n.targets[0].value) == 'banks' \
-               and isinstance(n.targets[0].slice, ast.Constant):
-                out.append((n.targets[0].slice.value, ast.unparse(n.value), n.lineno))
-        return out
-    z = banks_assigned(mod.method('Z80', 'set_ram'), None)
-    s = banks_assigned(mod.method('SZX', 'set_ram'), None)
-    want_szx = {(5, 'ram[0:16384]'), (2, 'ram[16384:32768]'), (0, 'ram[32768:49152]')}
-    got = {(b, e) for b, e, l in s}
-    if got != want_szx:
-        ctx.violation('SZX.set_ram', where, '48K RAM is split into banks %s, reader maps 5,2,0' % sorted(got))
-    else:
-        ctx.ok({'writer': 'SZX.set_ram', 'banks': '5,2,0'})
-    gz = {(b, e) for b, e, l in z}
-    want_z = {(5, 'ram[0:16384]'), (2, 'ram[16384:32768]'), (0, 'ram[32768:49152]'), (1, 'ram[16384:32768]'), (2, 'ram[32768:49152]')}
-    if gz != want_z:
-        ctx.violation('Z80.set_ram', where, '48K RAM bank assignment %s differs from v1 (5,2,0) / v3 (5,1,2)' % sorted(gz))
-    else:
-        ctx.ok({'writer': 'Z80.set_ram', 'banks': 'v1 5,2,0; v3 5,1,2'})
-    if '[[0] * 16384, self.banks[5], self.banks[1], self.banks[2]]' in msrc and '[[0] * 16384, self.banks[5], self.banks[2], self.banks[page]]' in msrc:
-        ctx.ok({'reader': 'Memory.__init__', 'z80 48K': '5,1,2', 'paged': '5,2,page'})
-    else:
-        ctx.violation('snapshot.Memory.__init__', where, 'reader bank mapping no longer 5,1,2 (Z80 48K) / 5,2,page')
-    # version-1 reader banks
-    rsrc = ast.unparse(mod.method('Z80', '_read'))
-    if all(x in rsrc for x in ('banks[5] = ram[0:16384]', 'banks[2] = ram[16384:32768]', 'banks[0] = ram[32768:49152]')) and \
-       'ram = self.memory.banks[5] + self.memory.banks[2] + self.memory.banks[0]' in ast.unparse(mod.method('Z80', 'data')):
-        ctx.ok({'format': 'Z80 v1', 'banks': '5,2,0 both ways'})
-    else:
-        ctx.violation('Z80 v1 banks', where, 'version 1 RAM order differs between Z80.data() and Z80._read()')
-    ctx.rule('C09.7-slices', 'slice reads of each Memory class are clamped at the size of its mapping (4 x 0x4000)', floor=3)
-    for modname, cls in (('snapshot', 'Memory'), ('pagingtracer', 'SliceableMemory')):
+def slices_rule(ctx, repo):
+    """C09.7: reading a slice that ends at the top of memory returns every byte (folded __getitem__ of each memory class)."""
+    from sa.core.classfold import ClassFolder, Inst
+    ctx.rule('C09.7-slices', 'slice reads of each memory class that reach the top of memory return all the bytes (folded __getitem__; open and explicit stops)', floor=3)
+    roms = {'rom-a': [(3 * i + 1) % 241 for i in range(0x4000)], 'rom-b': [(5 * i + 2) % 239 for i in range(0x4000)]}
+    def hook(n, lit):
+        if isinstance(n, ast.Name) and n.id in ('ROM128', 'ROM_PLUS2', 'ROM48') and n.id not in lit.env:
+            return ('rom-a', 'rom-b')
+        if isinstance(n, ast.Call) and isinstance(n.func, ast.Name) and n.func.id == 'read_bin_file':
+            return bytes(roms[lit.ev(n.args[0])])
+        return None
+    hook.override_names = ('ROM128', 'ROM_PLUS2', 'ROM48')
+    for modname, cls, build in (('snapshot', 'Memory', 'banks'), ('pagingtracer', 'SliceableMemory', 'paged'), ('skoolutils', 'Memory', 'none')):
         m2 = repo.mod(modname)
-        fn = m2.method(cls, '__getitem__')
-        ks = []
-        for n in ast.walk(fn):
-            if isinstance(n, ast.Call) and isinstance(n.func, ast.Name) and n.func.id == 'min' and len(n.args) == 2 and 'stop' in ast.unparse(n.args[0]):
-                try:
-                    ks.append(Lit(repo, modname).ev(n.args[1]))
-                except NotLiteral:
-                    ks.append(None)
-        if ks != [0x10000]:
-            ctx.violation('%s.%s.__getitem__' % (modname, cls), '%s:%d' % (m2.relpath, fn.lineno), 'slice stop is clamped at %s, mapping covers 0x10000 addresses: the last byte is lost' % ks)
+        cf = ClassFolder(repo, modname, hook)
+        where = '%s:%d' % (m2.relpath, m2.cls(cls).lineno)
+        try:
+            banks = [[(b * 16 + i) % 251 for i in range(0x4000)] for b in range(8)]
+            if build == 'banks':
+                mem = cf.new(cls, None, banks, 3)
+                flat = [0] * 0x4000 + banks[5] + banks[2] + banks[3]
+                cases = ((0xFFF0, 0x10000), (0xC000, 0x10000), (0xBFFE, 0xC002), (0x4000, 0x4003), (0xFFFF, 0x10000), (0x7FFF, 0x8001))
+            elif build == 'paged':
+                mem = cf.new(cls, banks, 3)
+                flat = roms['rom-a'] + banks[5] + banks[2] + banks[3]
+                cases = ((0xFFF0, 0x10000), (0xC000, 0x10000), (0xBFFE, 0xC002), (0x3FFE, 0x4003), (0xFFFF, 0x10000), (0x7FFF, 0x8001))
+            else:
+                mem = cf.new(cls)
+                for a in range(0xFF00, 0x10000):
+                    mem[a] = a % 199
+                flat = [0] * 0xFF00 + [a % 199 for a in range(0xFF00, 0x10000)]
+                for a in range(0x3FF0, 0x4000):
+                    flat[a] = mem[a]
+                cases = ((0xFFF0, 0x10000), (0xFFFE, None), (0xFFFF, 0x10000), (0xFF00, None), (0x3FFE, 0x4002))
+            bad = None
+            n = 0
+            for lo, hi in cases:
+                got = mem[lo:hi]
+                want_n = (hi if hi is not None else 0x10000) - lo
+                want = flat[lo:hi]
+                ok = list(got) == want
+                n += 1
+                if not ok:
+                    bad = (lo, hi, len(got), want_n)
+                    break
+        except NotLiteral as e:
+            ctx.limit('%s.%s.__getitem__' % (modname, cls), 'not foldable: %s' % e)
+            continue
+        except (KeyError, IndexError, ValueError, TypeError, AttributeError) as e:
+            ctx.violation('%s.%s.__getitem__' % (modname, cls), where, 'slice read fails with %s: %s' % (type(e).__name__, e))
+            continue
+        if bad:
+            ctx.violation('%s.%s.__getitem__' % (modname, cls), where, 'reading [%s:%s] returns %d bytes, not the %d stored there: the last byte(s) of memory are lost' % (hex(bad[0]), hex(bad[1]) if bad[1] else '', bad[2], bad[3]))
         else:
-            ctx.ok({'class': '%s.%s' % (modname, cls), 'clamp': 0x10000})
-    su = repo.mod('skoolutils')
-    try:
-        istop = Lit(repo, 'skoolutils').ev(su.assigns['INDEX_STOP'][-1])
-        if istop != {None: 0x10000}:
-            ctx.violation('skoolutils.INDEX_STOP', su.relpath, 'open slice stop maps to %s, expected 0x10000' % istop)
-        else:
-            ctx.ok({'class': 'skoolutils.Memory', 'open stop': 0x10000})
-    except (KeyError, NotLiteral):
-        raise FactError('skoolkit/skoolutils.py: INDEX_STOP not found')
-    ctx.rule('C09.8-rle-flush', 'Z80 run-length coder: a pending run is flushed under the same condition inside the loop and at the end of data', floor=1)
-    fn = mod.method('Z80', '_make_z80_ram_block')
-    loop = [s for s in fn.body if isinstance(s, ast.For)]
-    conds_in, conds_out = [], []
-    def flush_conds(stmts, out):
-        for s in stmts:
-            if isinstance(s, ast.If) and any('237, 237, count' in ast.unparse(x) for x in s.body):
-                out.append(ast.unparse(s.test))
-            elif isinstance(s, ast.If):
-                flush_conds(s.body, out); flush_conds(s.orelse, out)
-    if len(loop) != 1:
-        raise FactError('skoolkit/snapshot.py: _make_z80_ram_block shape not recognised')
-    flush_conds(loop[0].body, conds_in)
-    flush_conds([s for s in fn.body if s is not loop[0]], conds_out)
-    if len(conds_in) != 1 or len(conds_out) != 1:
-        raise FactError('skoolkit/snapshot.py: run flush sites not recognised (%d in loop, %d after)' % (len(conds_in), len(conds_out)))
-    if conds_in[0] != conds_out[0]:
-        ctx.violation('Z80 RLE flush', '%s:%d' % (where, fn.lineno), 'run is encoded when `%s` inside the loop but when `%s` at the end of the data: a trailing run of ED bytes is emitted literally and cannot be read back' % (conds_in[0], conds_out[0]))
-    else:
-        ctx.ok({'flush condition': conds_in[0]})
+            ctx.ok({'class': '%s.%s' % (modname, cls), 'slices': n})
+
+def misc_rules(ctx, repo, mod=None):
+    """Rules shared with C20 (RZX playback reads and writes snapshots): RLE pair and slices."""
+    from sa.rules import C09round
+    sf = C09round.SnapFolder(repo)
+    C09round.rle_rule(ctx, repo, sf)
+    slices_rule(ctx, repo)
+    return sf
 
 def export_rule(ctx, repo, mod):
     ctx.rule('C09.6-export', 'every key exported by simutils.get_state is stored by both writers (documented omissions: Z80 memptr, fe) and exported without narrowing', floor=20)
@@ -518,9 +161,12 @@ def export_rule(ctx, repo, mod):
 def run(ctx):
     repo = pyfacts.Repo(ctx.repo_root)
     mod = repo.mod('snapshot')
-    z80_rules(ctx, repo, mod)
-    szx_rules(ctx, repo, mod)
-    tstates_rule(ctx, repo, mod)
-    misc_rules(ctx, repo, mod)
+    from sa.rules import C09round
+    sf = C09round.roundtrip_rule(ctx, repo)
+    C09round.rle_rule(ctx, repo, sf)
+    C09round.codecs_rule(ctx, repo, sf)
+    tstates_rule(ctx, repo, mod, sf)
+    C09round.edits_rule(ctx, repo, sf)
+    slices_rule(ctx, repo)
     export_rule(ctx, repo, mod)
     return report.finish(ctx, EXPLANATION)
